@@ -1,8 +1,24 @@
 #!/usr/bin/env python3
 """mapranges.py <linker map> <executable> -> lines "hexaddr size name": every writable (.data/.bss/COMMON) chunk that a member
-of libmpir.a contributes to the executable, named by the symbols nm finds inside it.  Used by the global-write detector."""
+of libmpir.a contributes to the executable, named by the symbols nm finds inside it.  Used by the global-write detector.
+mapranges.py <linker map> <executable> text -> lines "hexaddr size member": every .text chunk of a member of libmpir.a (used to tell
+whether a direct call of malloc/free came from library code)."""
 import re, sys, subprocess
 mapf, exe = sys.argv[1], sys.argv[2]
+if len(sys.argv) > 3 and sys.argv[3] == 'text':
+    out = set(); L = open(mapf, errors='replace').read().splitlines(); k = 0
+    while k < len(L):
+        m = re.match(r'^ (\.text\S*)\s*(0x[0-9a-f]+)?\s*(0x[0-9a-f]+)?\s*(\S.*)?$', L[k])
+        if m:
+            sec, addr, size, src = m.groups()
+            if addr is None and k + 1 < len(L):
+                m2 = re.match(r'^\s+(0x[0-9a-f]+)\s+(0x[0-9a-f]+)\s+(\S.*)$', L[k + 1])
+                if m2: addr, size, src = m2.groups(); k += 1
+            if addr and size and src and 'libmpir.a(' in src and int(size, 16) > 0:
+                out.add((int(addr, 16), int(size, 16), src.split('libmpir.a(')[1].rstrip(')')))
+        k += 1
+    for a, sz, member in sorted(out): print('%x %d %s' % (a, sz, member))
+    sys.exit(0)
 syms = []
 for l in subprocess.run(['nm', '-S', '--defined-only', exe], capture_output=True, text=True).stdout.splitlines():
     p = l.split()
